@@ -4,9 +4,9 @@ from concurrent.futures import ThreadPoolExecutor
 from vlib import Infra
 
 LEVEL = "model_checking"
-INS_CLASSES = ["valid", "wrong-post", "wrong-pre", "wrong-path", "wrong-hash", "start-shifted", "start-out-of-range", "swapped-roots",
+INS_CLASSES = ["valid", "wrong-post", "wrong-pre", "wrong-path", "wrong-hash", "forged-last", "occupied-last", "start-shifted", "start-out-of-range", "swapped-roots",
                "ids+1", "ids-1", "proofs+1", "proofs-1", "row+1", "row-1", "empty"]
-DEL_CLASSES = ["valid", "wrong-post", "wrong-pre", "wrong-path", "wrong-leaf", "wrong-hash", "idx-too-high", "idx-shifted", "swapped-roots",
+DEL_CLASSES = ["valid", "wrong-post", "wrong-pre", "wrong-path", "wrong-leaf", "wrong-hash", "forged-last", "idx-too-high", "idx-shifted", "swapped-roots",
                "ids+1", "ids-1", "idxs+1", "idxs-1", "proofs+1", "proofs-1", "row+1", "row-1", "empty"]
 CANDS = ["own", "own+r", "own+2r", "own+4r", "own+1", "own-1", "other-batch", "random", "zero"]
 
